@@ -64,7 +64,7 @@ class Harness:
 
 
 EVENTS = ["ac0-change", "ac0-repeat", "zone0-change", "zone0-repeat", "zone2-change", "all-zones-change", "timer-change", "timer-repeat",
-          "errtext-change", "version-change", "version-repeat", "sub-twice", "unsub-twins", "raise-on", "oneshot-on"]
+          "errtext-change", "version-change", "version-repeat", "sub-twice", "unsub-twins", "raise-on", "raise-others", "oneshot-on"]
 
 
 def apply_event(h, ev, k):
@@ -118,6 +118,10 @@ def apply_event(h, ev, k):
         return []
     if ev == "raise-on":
         h.raising |= {"A1", "G1", "S1", "Z1"}
+        return []
+    if ev == "raise-others":
+        # the complementary subset starts raising (together with 'raise-on': every subscriber raises)
+        h.raising |= {"A2", "G2", "Z2", "H1", "Y1"}
         return []
     if ev == "oneshot-on":
         # (un)subscribing from inside a callback is a placement of subscribe/unsubscribe like any other
